@@ -4,7 +4,7 @@ from . import core
 
 ASSUMPTIONS = [
     "rustc nightly 1.97: MIR construction (mir-opt-level=0), type and trait resolution are trusted",
-    "the analysed universe is `cargo check --lib` of the product crates on Linux with default features (thorough: + dev_permissions); cfg(windows/macos/qnx) code, the Python binding and C++ headers are outside",
+    "the analysed universe is `cargo check --lib` of the product crates on Linux with default features (thorough: + the no_std universe `--no-default-features` for the 13 Rust crates, + dev_permissions for C04/C06/C07); cfg(windows/macos/qnx) code, the Python binding and C++ headers are outside",
     "unwind edges are excluded from path rules (a panic aborts the protocol) and included in Drop must-call rules",
     "the pass-through callee table used by provenance (rules/core.py PASS_THROUGH) and the exception tables of the rule module, each row with a reason",
     "the decided clause is a necessary structural condition of the property, not the behavioural statement itself (see level_note / DESIGN.md)",
@@ -26,8 +26,10 @@ def run(pid, tier, seed, ensure_facts, known, ev_path, rep_path, t0, ensure_muta
     extra = {}
     if tier == 'thorough':
         # second cfg universe the repository itself builds
-        if getattr(mod, 'THOROUGH_UNIVERSES', None):
-            for u in mod.THOROUGH_UNIVERSES:
+        # further cfg universes the repository itself builds: no_std (--no-default-features: own spin locks / atomics in the pal layer)
+        # for every property but the C binding's, dev_permissions where permissions matter
+        for u in getattr(mod, 'THOROUGH_UNIVERSES', ['no_std']):
+            if True:
                 fdir2, _, _, _ = ensure_facts(u)
                 F2 = core.Facts(fdir2)
                 R2 = core.Report(pid)
